@@ -215,7 +215,7 @@ Section Locks.
       destruct (memn n (e_cond_true e)); [apply NN; nn|exact C].
     - exact C.
     - exact C.
-    - (* FAlarmPost *) apply NN. cbv zeta.
+    - (* FAlarmPost *) destruct (n_kind (nd p n)); try exact C. apply NN. cbv zeta.
       eapply no_new_trans; [|apply no_new_register]. eapply no_new_trans; [|apply no_new_reset_tree].
       eapply no_new_trans; [|apply no_new_unregister]. eapply no_new_trans; [apply no_new_mark_completed|].
       apply no_new_set_ns. cbn. exact id.
